@@ -304,4 +304,67 @@ def encOutE (o : OutOracle) (ms : List OutMsg) : Except Panic (List Bytes) := do
   let ls ← ms.mapM (encMsgE o)
   .ok (ls.flatten.map singleLine)
 
+/-! ## the proto definitions this model was written against; the fields the ASCII form does not carry
+
+`Message.field` for every field reachable from `OutboundMessage` (ibeam_rawpanel/*.pb.go).  `protoFieldsRead`: the fields
+the encoder model reads (`MsgOut`'s types have one structure field for each).  `protoFieldsNotCarried`: the remaining ones
+— the encoder has no line for them and reads none of them: the bus status, the time stamp of an event, the previous
+value of an absolute / speed event.  The harness prints the names from the real protobuf descriptors (`eout.fields`
+record); the driver compares them with these two lists, so a field added to the proto definitions shows as a
+disagreement.  `OutMsgX` is a message WITH those fields; `encOutX` is the encoder on it (`C03.enc_ignores_noncarried`);
+`eout.msgsx` records run the real encoder on messages whose non-carried fields are set. -/
+
+def protoFieldsRead : List String :=
+  [
+   "OutboundMessage.FlowMessage", "OutboundMessage.HWCavailability", "OutboundMessage.PanelInfo", "PanelInfo.Model",
+   "PanelInfo.Serial", "PanelInfo.Name", "PanelInfo.SoftwareVersion", "PanelInfo.Platform",
+   "PanelInfo.BluePillReady", "PanelInfo.MaxClients", "PanelInfo.LockedToIPs", "PanelInfo.PanelType",
+   "PanelInfo.RawPanelSupport", "RawPanelSupport.ASCII", "RawPanelSupport.Binary",
+   "RawPanelSupport.ASCII_JSONfeedback", "RawPanelSupport.ASCII_Inbound", "RawPanelSupport.ASCII_Outbound",
+   "RawPanelSupport.Processors", "RawPanelSupport.System", "RawPanelSupport.RawADCValues",
+   "RawPanelSupport.BurninProfile", "RawPanelSupport.EnvHealth", "RawPanelSupport.Registers",
+   "RawPanelSupport.Calibration", "RawPanelSupport.NetworkSettings", "OutboundMessage.PanelTopology",
+   "PanelTopology.Svgbase", "PanelTopology.Json", "OutboundMessage.BurninProfile", "BurninProfile.Json",
+   "OutboundMessage.SleepTimeout", "SleepTimeout.Value", "OutboundMessage.SleepState", "SleepState.IsSleeping",
+   "OutboundMessage.Events", "HWCEvent.HWCID", "HWCEvent.Binary", "BinaryEvent.Pressed", "BinaryEvent.Edge",
+   "HWCEvent.Pulsed", "PulsedEvent.Value", "HWCEvent.Absolute", "AbsoluteEvent.Value", "HWCEvent.Speed",
+   "SpeedEvent.Value", "HWCEvent.RawAnalog", "RawAnalogEvent.Value", "OutboundMessage.Connections",
+   "Connections.Connection", "OutboundMessage.HeartBeatTimer", "HeartBeatTimer.Value", "OutboundMessage.DimmedGain",
+   "DimmedGain.Value", "OutboundMessage.RunTimeStats", "RunTimeStats.BootsCount", "RunTimeStats.TotalUptime",
+   "RunTimeStats.SessionUptime", "RunTimeStats.ScreenSaveOnTime", "OutboundMessage.SysStat", "SystemStat.CPUUsage",
+   "SystemStat.CPUTemp", "SystemStat.ExtTemp", "SystemStat.CPUVoltage", "SystemStat.CPUFreqCurrent",
+   "SystemStat.CPUFreqMin", "SystemStat.CPUFreqMax", "SystemStat.MemTotal", "SystemStat.MemFree",
+   "SystemStat.MemAvailable", "SystemStat.MemBuffers", "SystemStat.MemCached", "SystemStat.UnderVoltageNow",
+   "SystemStat.UnderVoltage", "SystemStat.FreqCapNow", "SystemStat.FreqCap", "SystemStat.ThrottledNow",
+   "SystemStat.Throttled", "SystemStat.SoftTempLimitNow", "SystemStat.SoftTempLimit", "OutboundMessage.Message",
+   "Message.Message", "OutboundMessage.ErrorMessage", "OutboundMessage.EnvironmentalHealth", "Environment.RunMode",
+   "OutboundMessage.Registers", "Register.Reg", "Register.Id", "Register.Value",
+   "OutboundMessage.CalibrationProfile", "CalibrationProfile.Json", "OutboundMessage.DefaultCalibrationProfile",
+   "OutboundMessage.NetworkConfig", "NetworkConfig.dhcp", "NetworkConfig.address", "NetworkConfig.netmask",
+   "NetworkConfig.gateway", "NetworkConfig.first_dns", "NetworkConfig.second_dns", "NetworkConfig.no_default_route" ]
+
+def protoFieldsNotCarried : List String :=
+  [
+   "OutboundMessage.BusStatus", "BusStatus.Fault", "HWCEvent.Timestamp", "AbsoluteEvent.PrevValue",
+   "SpeedEvent.PrevValue" ]
+
+/-- `HWCEvent.Timestamp`, `AbsoluteEvent.PrevValue`, `SpeedEvent.PrevValue` of one event -/
+structure EventNC where
+  timestamp : Nat := 0
+  absPrev : Nat := 0
+  speedPrev : Int := 0
+  deriving DecidableEq, Repr
+
+/-- an outbound message with the fields the ASCII form does not carry -/
+structure OutMsgX where
+  msg : OutMsg
+  /-- `OutboundMessage.BusStatus` (`none` = nil, `some f` = `{Fault: f}`) -/
+  busFault : Option Bool := none
+  /-- per event, in order (missing = defaults) -/
+  evNC : List EventNC := []
+  deriving Repr
+
+/-- the encoder on full messages: it reads `msg` only -/
+def encOutX (o : OutOracle) (ms : List OutMsgX) : List Bytes := encOut o (ms.map (·.msg))
+
 end RawPanelVerif.EncOut
